@@ -28,6 +28,7 @@ def run(tier, seed):
         for j in wsim.e2e_jobs(tier, seed, {'HAZ'}, light=(optt != ())):
             E.append(j[:5] + (optt,))
     rep.merge(common.pmap(wsim.e2e_job, E, chunksize=1))
+    rep.merge(common.pmap(wsim.glue_job, wsim.glue_jobs(tier, seed), chunksize=4))          # schedule / memory-map obligations the induction relies on
     # reachability twin: claiming "no transition" for a rising AND2 output must be refuted
     orig = wave.out8
     wave.out8 = lambda name, vals: 3 if tuple(vals) == ('R', '1') else orig(name, vals)
@@ -49,6 +50,6 @@ def run(tier, seed):
 
 
 def replay(data):
-    if data.get('mode') in ('boundary', 'e2e'): return wsim.replay(data)
+    if data.get('mode') in ('boundary', 'e2e', 'glue'): return wsim.replay(data)
     prob = wave.concrete_lemma(data)
     return bool(prob), str(prob)
